@@ -148,6 +148,11 @@ func c18SuffixSpace() *core.Space {
 		[]string{`require "%s"`, `require("%s")`}, 4)
 }
 
+// a directory whose name merely ends with the first segment of the module path (zm/x.lua is not the module m.x)
+func c18DirSuffixSpace() *core.Space {
+	return c18SpaceOf("directories-whose-name-ends-with-the-first-segment", []string{"zm/x.lua", "m/x.lua", "x.lua", "zm/init.lua"}, []string{"m.x", "m/x", "m"}, c18Forms, 4)
+}
+
 func c18SpaceOf(spaceName string, c18Candidates, c18Modules, c18Forms []string, maxTree int) *core.Space {
 	trees := c18Subsets(c18Candidates, maxTree)
 	// events: none, or one create/delete of a candidate
@@ -383,11 +388,13 @@ func init() {
 	core.Register(&core.Check{
 		ID:        "C18",
 		Technique: "bounded-exhaustive enumeration of directory trees x requiring file x module string x call form x separator x one create/delete event, on the real server; three-valued reference resolver plus cross-feature consistency",
-		Rule: "trees: every subset of <=3 (quick) / <=4 (thorough) of {x.lua, m/x.lua, n/x.lua, m/init.lua, m.lua, x.so}; requiring file at the root or in m/; module strings {x, m.x, m/x, n.x, m, m.init, q}; forms require \"s\", require(\"s\"), dofile(\"s.lua\"); separator . or /; then no event or one watched create/delete of a candidate; a second space: module strings ending in .lua (x.lua, m.x.lua; for require the dot separates modules) over every subset of {x.lua, x/lua.lua, x/lua/init.lua, m/x.lua}. " +
+		Rule: "trees: every subset of <=3 (quick) / <=4 (thorough) of {x.lua, m/x.lua, n/x.lua, m/init.lua, m.lua, x.so}; requiring file at the root or in m/; module strings {x, m.x, m/x, n.x, m, m.init, q}; forms require \"s\", require(\"s\"), dofile(\"s.lua\"); separator . or /; then no event or one watched create/delete of a candidate; a second space: module strings ending in .lua (x.lua, m.x.lua; for require the dot separates modules) over every subset of {x.lua, x/lua.lua, x/lua/init.lua, m/x.lua}; a third: modules m.x, m/x, m over every subset of {zm/x.lua, m/x.lua, x.lua, zm/init.lua} (a directory whose name only ends with the first segment). " +
 			"Judged before and after the event: type 6 <=> definition on the string finds no file; definition, hover and the file the analysis loaded (definition of a member of the required module) name the same file; a module that exists at the documented path (relative to the root or the requiring file's directory, name.lua then name/init.lua) must resolve to a file with that trailing path; " +
 			"a module for which no file has that trailing path must be reported. states = judgements; non-trivial = cases that must resolve or carry an event",
 		Assumptions: []string{"fuzzy suffix matches are accepted as targets (don't-care zone of the mapping)", "module strings written with the other separator are not judged", "native .so modules are tolerated: neither resolution nor a diagnostic is required"},
 		Flavour:     "prod+overlay", QuickBudgetS: 200, ThoroughBudgetS: 1200,
-		Spaces: func(tier string) []*core.Space { return []*core.Space{c18Space(tier), c18SuffixSpace()} },
+		Spaces: func(tier string) []*core.Space {
+			return []*core.Space{c18Space(tier), c18SuffixSpace(), c18DirSuffixSpace()}
+		},
 	})
 }
